@@ -178,14 +178,21 @@ def polyAcc (gc : V2 K) (acc : V2 K × K) (e : V2 K × V2 K) : V2 K × K :=
   let center := ((e.1.add e.2).add gc).sdiv (lit 3)
   (acc.1.add (center.smul area), acc.2 + area)
 
+/-- the vertex average `geometric_center` -/
+def polyGc (vs : List (V2 K)) : V2 K :=
+  (vs.foldl V2.add V2.zero).sdiv (Num.ofRat (vs.length : Nat))
+
+/-- body of `convex_polygon_area_and_center_of_mass` after the vertex average `gc` is known:
+`(areasum, if areasum == 0 { gc } else { res / areasum })` over the closed chain `es` -/
+def polyAreaComCore (gc : V2 K) (es : List (V2 K × V2 K)) : K × V2 K :=
+  let acc := es.foldl (polyAcc gc) (V2.zero, 0)
+  if neq acc.2 0 then (acc.2, gc) else (acc.2, acc.1.sdiv acc.2)
+
 /-- `convex_polygon_area_and_center_of_mass`; `none` = the `unwrap` panic on an empty slice -/
 def polyAreaCom (vs : List (V2 K)) : Option (K × V2 K) :=
   match vs with
   | [] => none
-  | first :: _ =>
-    let gc := (vs.foldl V2.add V2.zero).sdiv (Num.ofRat (vs.length : Nat))
-    let acc := (cyclicPairs first vs).foldl (polyAcc gc) (V2.zero, 0)
-    if neq acc.2 0 then some (acc.2, gc) else some (acc.2, acc.1.sdiv acc.2)
+  | first :: _ => some (polyAreaComCore (polyGc vs) (cyclicPairs first vs))
 
 /-- `itot` loop of `from_convex_polygon`: fan of triangles `(com, v_i, v_{i+1})`, each moment about `com` -/
 def polyItot (com : V2 K) (pairs : List (V2 K × V2 K)) : K :=
@@ -195,18 +202,20 @@ def polyItot (com : V2 K) (pairs : List (V2 K × V2 K)) : K :=
     let ipart := triUnitInertia t
     itot + ipart * area) 0
 
+/-- body of `from_convex_polygon` once `(area, com)` is known -/
+def fromConvexPolygonCore (density : K) (ac : K × V2 K) (es : List (V2 K × V2 K)) : MP2 K :=
+  if neq ac.1 0 then MP2.new ac.2 0 0
+  else
+    let itot := polyItot ac.2 es
+    MP2.new ac.2 (ac.1 * density) (itot * density)
+
 /-- `MassProperties::from_convex_polygon` -/
 def fromConvexPolygon (density : K) (vs : List (V2 K)) : Option (MP2 K) :=
   match vs with
   | [] => none
   | first :: _ =>
-    match polyAreaCom vs with
-    | none => none
-    | some (area, com) =>
-      if neq area 0 then some (MP2.new com 0 0)
-      else
-        let itot := polyItot com (cyclicPairs first vs)
-        some (MP2.new com (area * density) (itot * density))
+    let es := cyclicPairs first vs
+    some (fromConvexPolygonCore density (polyAreaComCore (polyGc vs) es) es)
 
 /-! ## 2-D TriMesh (`mass_properties_trimesh2d.rs`) -/
 
